@@ -72,7 +72,7 @@ func TestVerifC10Loop(t *testing.T) { //nolint:cyclop,maintidx
 	if out == "" {
 		out = os.TempDir()
 	}
-	n := 2000
+	n := 8000
 	if tier == "thorough" {
 		n = 100000
 	}
